@@ -11,7 +11,7 @@ def configs(ctx, b):
     if ctx.tier == "quick":
         plan = [(0, 5, 4), (1, 6, 3), (2, 6, 3), (3, 6, 3)]
     else:
-        plan = [(0, 5, 5), (1, 7, 4), (2, 7, 4), (3, 7, 4)]
+        plan = [(0, 5, 7), (1, 7, 6), (2, 7, 6), (3, 7, 6)]
     return [(s, "Variant init=%d maxnodes=%d depth=%d" % (i, mn, d), dict(init=i, maxnodes=mn, depth=d, _big=True)) for i, mn, d in plan]
 
 RULE = ("BFS over histories on three Variant variables: assignment of null/bool/int/uint/int64/uint64/double boundary values, strings "
